@@ -93,6 +93,27 @@ def explore(chk, budget=1):
             jobs.append((dict(op='LC', tbins=tb), cnt, k, lambda idx, nb=tb: counts_from(idx, nb)))
             if cnt.sum() != int(((c['time'] >= edges[0]) & (c['time'] <= edges[-1])).sum()):
                 chk.fail('impl', 'LC tbins=%d: Σ COUNTS = %d but %d events lie in the time range' % (tb, cnt.sum(), n), dict(oracle='LC', tbins=tb))
+        # the same events in a file whose rows are not time-ordered (halves swapped, a few neighbours exchanged): binning is per event
+        path2 = os.path.join(d, 'unsorted.fits')
+        with fits.open(path) as h:
+            m = len(h['EVENTS'].data)
+            perm = numpy.concatenate([numpy.arange(m // 2, m), numpy.arange(0, m // 2)])
+            sw = 2 * g.choice((m - 1) // 2, min(10, (m - 1) // 2), replace=False)          # disjoint neighbour pairs
+            perm[sw], perm[sw + 1] = perm[sw + 1].copy(), perm[sw].copy()
+            for ext in ('EVENTS', 'MONTE_CARLO'):
+                if ext in h:
+                    h[ext].data = h[ext].data[perm]
+            h.writeto(path2, overwrite=True)
+        for alg, args, ext, col in (('LC', ('--tbins', nlc), 'RATE', 'COUNTS'), ('PP', ('--phasebins', 16), 1, 'COUNTS'), ('PHA1', (), 'SPECTRUM', None)):
+            o1, o2 = xpbin(path, alg, *args), xpbin(path2, alg, *args)
+            with fits.open(o1) as h1, fits.open(o2) as h2:
+                name = col or [n_ for n_ in h1[ext].columns.names if n_ in ('COUNTS', 'RATE')][0]
+                c1, c2 = numpy.array(h1[ext].data[name], dtype=float), numpy.array(h2[ext].data[name], dtype=float)
+            chk.case(dict(op=alg + ' unsorted rows', events=m), nontrivial=True)
+            if c1.shape != c2.shape or not numpy.allclose(c1, c2, rtol=1e-6, atol=0):
+                j = int(numpy.argmax(numpy.abs(c1 - c2))) if c1.shape == c2.shape else -1
+                chk.fail('impl', '%s of the same events with rows not in time order: %s differs (bin %d: %r vs %r; totals %r vs %r)' % (
+                    alg, name, j, float(c2[j]) if j >= 0 else None, float(c1[j]) if j >= 0 else None, float(c2.sum()), float(c1.sum())), dict(oracle='unsorted', alg=alg))
         # ---------------------------------------------------------------- PP
         for pb in (4, 16, int(g.integers(3, 30))):
             o = xpbin(path, 'PP', '--phasebins', pb)
